@@ -6,18 +6,18 @@
 package main
 
 import (
-	"path/filepath"
-	"os/exec"
-	"regexp"
-	"sync/atomic"
 	"context"
 	"encoding/json"
 	"fmt"
 	"os"
+	"os/exec"
+	"path/filepath"
+	"regexp"
 	"runtime"
 	"sort"
 	"strings"
 	"sync"
+	"sync/atomic"
 	"time"
 
 	"github.com/siglens/siglens/pkg/ast/pipesearch"
@@ -335,7 +335,14 @@ func main() {
 	installHooks()
 	n := 0
 	var cases []string
-	for _, q := range []string{"*", "* | stats count"} {
+	queries := []string{"*", "* | stats count"}
+	if os.Getenv("VERIF_RACE_CHILD") != "" {
+		// the forced interleavings order their accesses through the pause points (channels), so the detector has
+		// nothing to see there, and their 70 indexes cost ~15 GB under the detector: the instrumented child runs the
+		// free-running parts only
+		queries = nil
+	}
+	for _, q := range queries {
 		for _, sched := range interleavings(4, 3) {
 			n++
 			index := fmt.Sprintf("ix%d", n)
@@ -431,7 +438,6 @@ func raceFrame(block []string) (string, string) {
 var handoverFiles = map[string]bool{
 	"pkg/segment/writer/segstore.go": true, "pkg/segment/writer/segwriter.go": true, "pkg/segment/writer/unrotatedquery.go": true,
 	"pkg/segment/writer/segmetarw.go": true, "pkg/segment/writer/packer.go": true, "pkg/segment/writer/suffix/suffix.go": true,
-	"pkg/segment/query/segquery.go": true, "pkg/segment/query/queryrefresh.go": true,
 }
 
 // pkg/segment/metadata/metadata.go holds the rotated list (judged: the functions below) next to the lazy loading of
@@ -439,17 +445,24 @@ var handoverFiles = map[string]bool{
 var handoverFuncs = map[string]bool{
 	"pkg/segment/metadata.BulkAddSegmentMicroIndex": true, "pkg/segment/metadata.AddSegMetaToMetadata": true,
 	"pkg/segment/metadata.(*allSegmentMetadata).bulkAddSegmentMicroIndex": true,
-	"pkg/segment/metadata.(*allSegmentMetadata).deleteSegmentKey": true, "pkg/segment/metadata.(*allSegmentMetadata).deleteSegmentKeyWithLock": true,
+	"pkg/segment/metadata.(*allSegmentMetadata).deleteSegmentKey":         true, "pkg/segment/metadata.(*allSegmentMetadata).deleteSegmentKeyWithLock": true,
 	"pkg/segment/metadata.(*allSegmentMetadata).deleteTable": true, "pkg/segment/metadata.DeleteSegmentKey": true,
 	"pkg/segment/metadata.DeleteVirtualTable": true, "pkg/segment/metadata.GetAllSegmentMicroIndex": true,
+	// the enumeration of open and rotated segments by a query (pkg/segment/query/segquery.go)
+	"pkg/segment/query.getAllSegmentsInQuery": true, "pkg/segment/query.getAllUnrotatedSegments": true,
+	"pkg/segment/query.getAllRotatedSegmentsInQuery": true, "pkg/segment/query.getAllSegmentsInAggs": true,
+	"pkg/segment/query.getAllUnrotatedSegmentsInAggs": true, "pkg/segment/query.getAllRotatedSegmentsInAggs": true,
+	"pkg/segment/query.getRotatedSegments": true, "pkg/segment/query.GetSSRsFromQSR": true,
+	"pkg/segment/query.FilterSegKeysToQueryResults": true, "pkg/segment/query.FilterAggSegKeysToQueryResults": true,
+	"pkg/segment/query.ConvertSegKeysToQueryRequests": true, "pkg/segment/query.filterUnrotatedSegKeysToQueryRequests": true,
 }
 
 // one entry per distinct (writer functions, other function) combination
 type raceRep struct {
-	Writers  []string // innermost siglens function of every WRITE access of the report ("(harness)" if none of siglens)
-	WFiles   []string // their source files
-	Other    string   // the reading side, if one access is a read
-	Text     string
+	Writers []string // innermost siglens function of every WRITE access of the report ("(harness)" if none of siglens)
+	WFiles  []string // their source files
+	Other   string   // the reading side, if one access is a read
+	Text    string
 }
 
 func parseRaceLogs(glob string) (reps map[string]raceRep, harnessOnly int) {
@@ -520,63 +533,103 @@ func raceStage(cfg vhlib.Config, sum *vhlib.Summary) {
 	dir := filepath.Join(cfg.Out, "race")
 	_ = os.RemoveAll(dir)
 	_ = os.MkdirAll(dir, 0o755)
-	runs := 1
-	if cfg.Thorough() {
-		runs = 3
-	}
+	// Three children run side by side; a writer class is judged only when at least two of them report it.
+	// The unchanged tree has rare, timing-dependent races even in these files (one showed once in ~40 runs); an
+	// unsynchronised access introduced by a change (a removed lock) shows in every run.
+	runs := 3
+	var wg sync.WaitGroup
+	okRun := make([]bool, runs)
+	var emu sync.Mutex
 	for i := 0; i < runs; i++ {
-		ok := false
-		for try := 0; try < 3 && !ok; try++ {
-			cmd := exec.Command(bin, "--tier", cfg.Tier, "--seed", fmt.Sprint(cfg.Seed+uint64(i)), "--out", filepath.Join(dir, fmt.Sprintf("run%d", i)))
-			cmd.Env = append(os.Environ(), "VERIF_RACE_CHILD=1", "GORACE=halt_on_error=0 history_size=5 log_path="+filepath.Join(dir, fmt.Sprintf("racelog%d", i)))
-			out, err := cmd.CombinedOutput()
-			_ = os.WriteFile(filepath.Join(dir, fmt.Sprintf("run%d.out", i)), out, 0o644)
-			if err == nil {
-				ok = true
-				break
+		wg.Add(1)
+		go func(i int) {
+			defer wg.Done()
+			for try := 0; try < 3 && !okRun[i]; try++ {
+				cmd := exec.Command(bin, "--tier", cfg.Tier, "--seed", fmt.Sprint(cfg.Seed+uint64(i)), "--out", filepath.Join(dir, fmt.Sprintf("run%d", i)))
+				cmd.Env = append(os.Environ(), "VERIF_RACE_CHILD=1", "GORACE=halt_on_error=0 history_size=5 log_path="+filepath.Join(dir, fmt.Sprintf("racelog%d", i)))
+				out, err := cmd.CombinedOutput()
+				_ = os.WriteFile(filepath.Join(dir, fmt.Sprintf("run%d.out", i)), out, 0o644)
+				if err == nil {
+					okRun[i] = true
+					break
+				}
+				if ee, isExit := err.(*exec.ExitError); isExit && ee.ExitCode() == 66 { // 66 = races were reported
+					okRun[i] = true
+					break
+				}
+				// limits of the race runtime in this sandbox (not behaviour of the code under test): try again
+				if strings.Contains(string(out), "too many address space collisions for -race mode") || strings.Contains(string(out), "out of memory") ||
+					strings.Contains(string(out), "ThreadSanitizer: failed to") {
+					sum.Count("race/child_retried(race runtime ran out of address space)")
+					for _, f := range func() []string { fs, _ := filepath.Glob(filepath.Join(dir, fmt.Sprintf("racelog%d.*", i))); return fs }() {
+						_ = os.Remove(f)
+					}
+					continue
+				}
+				// killed (memory) or any other abnormal end of the instrumented child: the same scenarios ran in this
+				// process without the detector and were judged there; the race stage of this child is inconclusive
+				emu.Lock()
+				sum.Count("race/child_abnormal_end(retried): " + err.Error())
+				emu.Unlock()
+				for _, f := range func() []string { fs, _ := filepath.Glob(filepath.Join(dir, fmt.Sprintf("racelog%d.*", i))); return fs }() {
+					_ = os.Remove(f)
+				}
 			}
-			if ee, isExit := err.(*exec.ExitError); isExit && ee.ExitCode() == 66 { // 66 = races were reported
-				ok = true
-				break
+		}(i)
+	}
+	wg.Wait()
+	conclusive := 0
+	for i := range okRun {
+		if okRun[i] {
+			conclusive++
+		}
+	}
+	sum.Count(fmt.Sprintf("race/children_conclusive=%d_of_%d", conclusive, runs))
+	// per child: the set of judged writer classes
+	seenIn := map[string]int{}
+	example := map[string]raceRep{}
+	all := map[string]bool{}
+	for i := 0; i < runs; i++ {
+		reps, _ := parseRaceLogs(filepath.Join(dir, fmt.Sprintf("racelog%d.*", i)))
+		classes := map[string]bool{}
+		for k, r := range reps {
+			all[k] = true
+			w := ""
+			for j, x := range r.Writers {
+				if handoverFiles[r.WFiles[j]] || handoverFuncs[x] {
+					w = x
+					break
+				}
 			}
-			// limits of the race runtime in this sandbox (not behaviour of the code under test): try again
-			if strings.Contains(string(out), "too many address space collisions for -race mode") || strings.Contains(string(out), "out of memory") ||
-				strings.Contains(string(out), "ThreadSanitizer: failed to") {
-				sum.Count("race/child_retried(race runtime ran out of address space)")
+			if w == "" {
+				sum.Count("race/outside_the_handover_code(counted, not judged)/" + r.Writers[0])
 				continue
 			}
-			sum.HarnessError(fmt.Sprintf("race child: %v %s", err, tail(string(out), 400)))
-			return
-		}
-		if !ok {
-			sum.Count("race/stage_inconclusive(race runtime ran out of address space three times)")
-		}
-	}
-	reps, _ := parseRaceLogs(filepath.Join(dir, "racelog*"))
-	keys := make([]string, 0, len(reps))
-	for k := range reps {
-		keys = append(keys, k)
-	}
-	sort.Strings(keys)
-	sum.Count(fmt.Sprintf("race/distinct_reports=%d", len(keys)))
-	// the class of a report is its WRITE side: the unsynchronised writer is the defect, the readers that meet it vary
-	for _, k := range keys {
-		r := reps[k]
-		sum.Eval("race/"+k, true)
-		w := ""
-		for i, x := range r.Writers {
-			if handoverFiles[r.WFiles[i]] || handoverFuncs[x] {
-				w = x
-				break
+			classes[w] = true
+			if _, ok := example[w]; !ok {
+				example[w] = r
 			}
 		}
-		if w == "" {
-			sum.Count("race/outside_the_handover_code(counted, not judged)/" + r.Writers[0])
+		for w := range classes {
+			seenIn[w]++
+		}
+	}
+	sum.Count(fmt.Sprintf("race/distinct_reports=%d", len(all)))
+	ws := make([]string, 0, len(seenIn))
+	for w := range seenIn {
+		ws = append(ws, w)
+	}
+	sort.Strings(ws)
+	for _, w := range ws {
+		r := example[w]
+		sum.Eval("race/"+w, true)
+		if seenIn[w] < 2 {
+			sum.Count("race/in_handover_code_but_seen_in_one_child_only(not judged)/" + w)
 			continue
 		}
-		sum.Fail("data_race_in_handover_code: "+w, "the race detector reports an unsynchronised write in "+strings.Join(r.Writers, " and ")+
+		sum.Fail("data_race_in_handover_code: "+w, fmt.Sprintf("the race detector reports (in %d of %d runs) an unsynchronised write in %s", seenIn[w], runs, strings.Join(r.Writers, " and "))+
 			map[bool]string{true: " against a read in " + r.Other, false: ""}[r.Other != ""]+" during concurrent ingest / flush / rotation / search",
-			map[string]interface{}{"writers": r.Writers, "files": r.WFiles, "other_access": r.Other, "report": r.Text})
+			map[string]interface{}{"writers": r.Writers, "files": r.WFiles, "other_access": r.Other, "report": r.Text, "runs_with_this_report": seenIn[w]})
 	}
 }
 
@@ -586,8 +639,6 @@ func tail(s string, n int) string {
 	}
 	return s
 }
-
-
 
 // ---------- free-running stress (random real interleavings; observed, not forced) ----------
 // W writers, each on its own index: ingest 2 events, flush, publish the count of flushed events,
@@ -722,9 +773,17 @@ func schedCoq(s string) string {
 // K goroutines are released together, each sends its own ids to an index nobody has written to yet; after they
 // return and a flush, every acknowledged id must be searchable exactly once, also after a rotation.
 func concurrentFirstIngest(cfg vhlib.Config, sum *vhlib.Summary) {
-	rounds, K, per := 10, 6, 5
+	// every round needs a fresh index, and every open index costs the writer tens of MB of block buffers
+	// (ten times that under the race detector): keep the number of rounds small
+	rounds, K, per := 4, 6, 5
 	if cfg.Thorough() {
-		rounds, K, per = 60, 8, 5
+		rounds, K, per = 12, 8, 5
+	}
+	if os.Getenv("VERIF_RACE_CHILD") != "" {
+		rounds = 2
+	}
+	if v := os.Getenv("C11_FIRST_INGEST_ROUNDS"); v != "" {
+		fmt.Sscanf(v, "%d", &rounds)
 	}
 	for r := 0; r < rounds; r++ {
 		index := fmt.Sprintf("cf%d", r)
